@@ -152,3 +152,88 @@ Proof. eexists. vm_compute. reflexivity. Qed.
 Example ex_env_inv :
   env_inv [[([120], ({| vr_local := true; vr_quant := QStar |}, false)); ([109], ({| vr_local := false; vr_quant := QOne |}, true))]].
 Proof. intros fr x v m [<-|[]] [H|[H|[]]]; inversion H; subst; [reflexivity|discriminate]. Qed.
+
+(* ================= LOCALITY: what an accepted file guarantees about EAGER positions =================
+   Vocabulary (Model/Locality.v, Spec/EagerPos.v)
+     lenv                      static environment: frames of (name, bit); bit true = immutable and independent of
+                               scoped variables (`let` of an eager_ok expression, `node`, loop variable); every `var`
+                               has bit false from its declaration on
+     eager_ok G env e          e has no scoped-variable read and every unscoped name in it is a global (G) or has bit
+                               true in env; comprehension lists inside e are eager_ok too
+     eager_in_file f' env e    e is an eager position of a stanza statement of f' at any nesting depth — subject of
+                               `scan`, condition of `if`, list of `for`, list of a comprehension inside any expression —
+                               and env is the static environment there (blocks scoped, statements in sequence)
+     file_eok f'               the executable form of "every eager position of every stanza is eager_ok"
+     lenv_of env               the checker's environment, projected to the `is_local` bits
+   Shorthand bodies are not stanza statements: they are not covered (known finding K4, `ex_shorthand_not_checked`). *)
+From TSG Require Import Model.Locality Spec.EagerPos Proofs.LocalCheck Proofs.LocalPos.
+
+Theorem checked_eager_positions_local : forall q f f',
+  check_file q f = CkOk f' ->
+  file_eok f' = true /\ forall env e, eager_in_file f' env e -> eager_ok (is_global f') env e = true.
+Proof.
+  intros q f f' H. pose proof (check_file_eok_with _ _ _ _ H) as Hok. split; [exact Hok|].
+  intros env e. apply file_eok_pos. exact Hok.
+Qed.
+
+(* the checker's verdict `is_local` IS eager_ok (globals are entered as local by File::check) *)
+Theorem checker_local_is_eager_ok : forall cx env e e' r,
+  globals_local cx -> check_expr cx env e = Ok (e', r) -> er_local r = eager_ok (cx_global cx) (lenv_of env) e'.
+Proof. intros cx env e e' r Hgl H. exact (check_expr_local cx (cx_global cx) (fun _ => eq_refl) Hgl _ _ _ _ H). Qed.
+
+(* statement by statement: every eager position is eager_ok, and the checker continues in the projected environment *)
+Theorem checked_stmt_eager_ok : forall cx env s s' env' u,
+  globals_local cx -> env_inv env -> check_stmt cx env s = Ok (s', env', u) ->
+  stmt_eok (cx_global cx) (lenv_of env) s' = true /\ lenv_of env' = stmt_env (cx_global cx) (lenv_of env) s'.
+Proof. intros cx env s s' env' u Hgl Hinv H. exact (check_stmt_eok cx (cx_global cx) (fun _ => eq_refl) Hgl _ _ _ _ _ H Hinv). Qed.
+
+(* the walker is sound for the enumeration of positions *)
+Theorem eok_covers_positions : forall G env0 s env e,
+  stmt_eok G env0 s = true -> eager_in_stmt G env0 s env e -> eager_ok G env e = true.
+Proof. intros G env0 s env e Hok Hpos. exact (proj1 (eok_pos G) _ _ _ _ Hpos Hok). Qed.
+
+(* ---- Examples ---- *)
+(* (identifier)* @id {
+     for x in @id { let a = x  let b = [a, a]
+       for y in b { let c = (f y a)  scan c { "rx0" { print c } }  if c { } } } } *)
+Definition lx_l : loc := (0, 0).
+Definition lx_body : list stmt :=
+  [SFor [120] lx_l ex_cap
+     [SLet (VarU [97] lx_l) (EUnscoped [120] lx_l) lx_l;
+      SLet (VarU [98] lx_l) (EList [EUnscoped [97] lx_l; EUnscoped [97] lx_l]) lx_l;
+      SFor [121] lx_l (EUnscoped [98] lx_l)
+        [SLet (VarU [99] lx_l) (ECall [102] [EUnscoped [121] lx_l; EUnscoped [97] lx_l]) lx_l;
+         SScan (EUnscoped [99] lx_l) [(0, [SPrint [EUnscoped [99] lx_l] lx_l], lx_l)] (7, 7);
+         SIf [([CBool (EUnscoped [99] lx_l) lx_l], [], lx_l)] lx_l] lx_l] lx_l].
+Example lx_accepted : exists f', check_file (ex_tables [ex_id; FULL_MATCH]) (ex_file lx_body []) = CkOk f' /\ file_eok f' = true.
+Proof. eexists. split; vm_compute; reflexivity. Qed.
+(* the subject of the inner `scan` is an eager position, found two loops deep behind a `let` chain *)
+Example lx_position : forall f', check_file (ex_tables [ex_id; FULL_MATCH]) (ex_file lx_body []) = CkOk f' ->
+  let env := [[([121], true); ([99], true)]; [([120], true); ([97], true); ([98], true)]; []] in
+  eager_in_file f' env (EUnscoped [99] lx_l) /\ eager_ok (is_global f') env (EUnscoped [99] lx_l) = true.
+Proof.
+  intros f' H env. assert (Hpos : eager_in_file f' env (EUnscoped [99] lx_l)).
+  { vm_compute in H. inversion H; subst f'. eexists. split; [left; reflexivity|]. cbn [st_stmts].
+    apply EIB_here. apply EIS_for_body. apply EIB_later, EIB_later, EIB_here. apply EIS_for_body.
+    apply EIB_later, EIB_here. apply EIS_scan. }
+  split; [exact Hpos|]. exact (proj2 (checked_eager_positions_local _ _ _ H) _ _ Hpos).
+Qed.
+(* the motivating program: `var v = 1 … scan v … set v = x.y` in a loop body.  The checker walks the body once, the
+   interpreter runs it once per element: v must be non-local from its DECLARATION, and the scan is rejected with
+   ExpectedLocalValue (variant 5) at the scan statement *)
+Definition lx_bad : list stmt :=
+  [SFor [120] lx_l ex_cap
+     [SVar (VarU [118] lx_l) (EInt 1) lx_l;
+      SScan (EUnscoped [118] lx_l) [(0, [], lx_l)] (7, 7);
+      SSet (VarU [118] lx_l) (EScoped (EUnscoped [120] lx_l) [121] lx_l) lx_l] lx_l].
+Example lx_rejected : check_file (ex_tables [ex_id; FULL_MATCH]) (ex_file lx_bad []) = CkErr 5 (7, 7) [].
+Proof. vm_compute. reflexivity. Qed.
+Example lx_bad_not_eok : file_eok (ex_file lx_bad []) = false.
+Proof. vm_compute. reflexivity. Qed.
+(* without the scan the same body is accepted: the `set` of a scoped read into a `var` is fine *)
+Example lx_var_set_accepted : exists f',
+  check_file (ex_tables [ex_id; FULL_MATCH])
+    (ex_file [SFor [120] lx_l ex_cap
+                [SVar (VarU [118] lx_l) (EInt 1) lx_l;
+                 SSet (VarU [118] lx_l) (EScoped (EUnscoped [120] lx_l) [121] lx_l) lx_l] lx_l] []) = CkOk f'.
+Proof. eexists. vm_compute. reflexivity. Qed.
